@@ -14,6 +14,7 @@ package controllers
 //@   ensures result == nameOf(*self)
 
 //@ func sortedCopy$1
+//@   params i, j
 //@   requires 0 <= i && i < len(res) && 0 <= j && j < len(res)
 //@   ensures result == (nameOf(res[i]) < nameOf(res[j]))
 
@@ -32,6 +33,7 @@ package controllers
 // ---- C03 / C07 (mechanism): the service reconciler ----
 // reprocessAll's comparator: more recorded addresses first
 //@ func (*ServiceReconciler).reprocessAll$1
+//@   params i, j
 //@   requires 0 <= i && i < len(sortedServices) && 0 <= j && j < len(sortedServices)
 //@   ensures result == (len(sortedServices[i].Status.LoadBalancer.Ingress) > len(sortedServices[j].Status.LoadBalancer.Ingress))
 // the registered handler (controller / speaker SetBalancer) does not write the reconciler's own fields (assumed)
@@ -116,6 +118,7 @@ package controllers
 // unless the handler failed with a retryable error (then it is forgotten so that the retry is not taken for "unchanged");
 // a service reload is forced only on the handler's request
 //@ func init$1
+//@   params r, ctx, req
 //@   abstract
 //@   requires [errVar] errRetry != nil
 //@   assert before Handler: [handsParsed] arg1 == cfg && r.currentConfig == cfg
